@@ -96,9 +96,19 @@ def base_env():
     return env
 
 
+# Wall-clock watchdogs only guard against hangs; their firing is inconclusive, never a verdict.  They are scaled so that a
+# loaded machine (other checks, seeding runs) does not turn a slow batch into an inconclusive run.
+TIER = "quick"
+
+
+def _scaled(timeout):
+    return timeout * (8 if TIER == "thorough" else 3)
+
+
 def run_truth(v, cmd, args, workdir, tag, timeout=600):
     """Run truth.py <cmd> inside reference interpreter v.  Returns
     (outfile or None, error string or None)."""
+    timeout = _scaled(timeout)
     argf = os.path.join(workdir, tag + ".targs.json")
     outf = os.path.join(workdir, tag + ".truth.jsonl")
     with open(argf, "w") as f:
@@ -119,6 +129,7 @@ def run_truth(v, cmd, args, workdir, tag, timeout=600):
 
 def run_agent(host, cmd, args, workdir, tag, timeout=900, extra_env=None):
     """Run agent.py <cmd> inside host interpreter with xdis from REPO."""
+    timeout = _scaled(timeout)
     argf = os.path.join(workdir, tag + ".aargs.json")
     outf = os.path.join(workdir, tag + ".obs.json")
     with open(argf, "w") as f:
